@@ -3045,6 +3045,76 @@ def propagate_name_aliases(fnode):
     return done
 
 
+
+def flatten_nested_zips(fnode, counter):
+    """for a, rec in zip(A, zip(B, C)): BODY      ->   for a, rec__z0, rec__z1 in zip(A, B, C): rec = (rec__z0, rec__z1); BODY
+    (the inner zip written on the spot, or a local bound once to it immediately consumed by this loop and mentioned nowhere else;
+    both zips stop at the shortest column, and an inner zip is only advanced when every column before it still had an item - the
+    flat zip reads the same items in the same order)"""
+    changed = False
+    counts, mentions = {}, {}
+    for x in ast.walk(fnode):
+        if isinstance(x, ast.Name):
+            mentions[x.id] = mentions.get(x.id, 0) + 1
+            if isinstance(x.ctx, (ast.Store, ast.Del)):
+                counts[x.id] = counts.get(x.id, 0) + 1
+
+    def is_zip(e):
+        return isinstance(e, ast.Call) and isinstance(e.func, ast.Name) and e.func.id == "zip" and not e.keywords and e.args and not any(isinstance(a, ast.Starred) for a in e.args)
+
+    def rewrite(stmts):
+        nonlocal changed
+        out = []
+        for i, st in enumerate(stmts):
+            for fld in ("body", "orelse", "finalbody"):
+                sub = getattr(st, fld, None)
+                if isinstance(sub, list) and sub and isinstance(sub[0], ast.stmt) and not isinstance(st, (ast.FunctionDef, ast.AsyncFunctionDef, ast.ClassDef)):
+                    setattr(st, fld, rewrite(sub))
+            if isinstance(st, ast.For) and not st.orelse and is_zip(st.iter) and isinstance(st.target, (ast.Tuple, ast.List)) and len(st.target.elts) == len(st.iter.args) \
+                    and not any(isinstance(t, ast.Starred) for t in st.target.elts):
+                new_args, new_tgts, binds, drop_prev = [], [], [], None
+                hit = False
+                for a, t in zip(st.iter.args, st.target.elts):
+                    inner = a if is_zip(a) else None
+                    if inner is None and isinstance(a, ast.Name) and counts.get(a.id) == 1 and mentions.get(a.id) == 2 and out and isinstance(out[-1], ast.Assign) \
+                            and len(out[-1].targets) == 1 and isinstance(out[-1].targets[0], ast.Name) and out[-1].targets[0].id == a.id and is_zip(out[-1].value) \
+                            and all(_cheap(x) or isinstance(x, ast.Subscript) for x in out[-1].value.args):
+                        inner = out[-1].value
+                        drop_prev = out[-1]
+                    if inner is None:
+                        new_args.append(a)
+                        new_tgts.append(t)
+                        continue
+                    hit = True
+                    if isinstance(t, (ast.Tuple, ast.List)) and len(t.elts) == len(inner.args):
+                        new_args += list(inner.args)
+                        new_tgts += list(t.elts)
+                    elif isinstance(t, ast.Name):
+                        k = counter[0]
+                        counter[0] += 1
+                        names = [f"{t.id}__z{k}_{j}" for j in range(len(inner.args))]
+                        new_args += list(inner.args)
+                        new_tgts += [ast.Name(id=n_, ctx=ast.Store()) for n_ in names]
+                        binds.append(ast.Assign(targets=[ast.Name(id=t.id, ctx=ast.Store())], value=ast.Tuple(elts=[ast.Name(id=n_, ctx=ast.Load()) for n_ in names], ctx=ast.Load()),
+                                                lineno=st.lineno, col_offset=0))
+                    else:
+                        hit = False
+                        break
+                if hit:
+                    if drop_prev is not None:
+                        out.pop()
+                    st = copy.copy(st)
+                    st.iter = ast.Call(func=ast.Name(id="zip", ctx=ast.Load()), args=new_args, keywords=[])
+                    st.target = ast.Tuple(elts=new_tgts, ctx=ast.Store())
+                    st.body = binds + list(st.body)
+                    ast.fix_missing_locations(st)
+                    changed = True
+            out.append(st)
+        return out
+    fnode.body = rewrite(fnode.body)
+    return changed
+
+
 # --------------------------------------------------------------------------------------------------- deferred raise
 def undefer_raises(stmts):
     """problem = None; if A: problem = M1 [elif B: problem = M2 ...]; if problem is not None: raise E(problem)
@@ -3267,6 +3337,9 @@ def partial_evaluate(repo, max_rounds=8):
             if (steps or q in getattr(repo, "inlined", {})) and propagate_readonly_displays(repo, f):
                 ch = True
                 steps.append("readonly-displays")
+            if (steps or q in getattr(repo, "inlined", {})) and flatten_nested_zips(f.node, counter):
+                ch = True
+                steps.append("nested-zips")
             if (steps or q in getattr(repo, "inlined", {})) and propagate_name_aliases(f.node):
                 ch = True
                 steps.append("name-aliases")
